@@ -16,10 +16,25 @@ EMPTY_MSG = project.empty_msg("none")
 
 def base_event(eid, obj, kind):
     return {"id": eid, "obj": obj, "k": kind, "msg": EMPTY_MSG, "status": "ok", "warns": [],
-            "ser_eq": True, "intact": True, "cls": "", "completed_eq": True}
+            "ser_eq": True, "intact": True, "cls": "", "completed_eq": True, "acc_eq": True, "expose_intact": True}
 
 
-def run_behaviour(bid, beh, seed, observe=None):
+def accessor_view(ro):
+    """what the library's own accessors say about a running order (for comparing a live object with its reload)"""
+    def get(fn):
+        try:
+            return fn()
+        except Exception as e:  # noqa: BLE001
+            return "raised:" + type(e).__name__
+    return {"stories": get(lambda: [s.id for s in ro.stories]),
+            "items": get(lambda: [[i.id for i in s.items] for s in ro.stories]),
+            "slugs": get(lambda: [s.slug for s in ro.stories]),
+            "completed": get(lambda: bool(ro.completed)), "mid": get(lambda: ro.message_id),
+            "roid": get(lambda: ro.ro_id), "slug": get(lambda: ro.ro_slug if ro.base_tag.find("roSlug") is not None else None),
+            "script": get(lambda: list(ro.script))}
+
+
+def run_behaviour(bid, beh, seed, observe=None, expose=None):
     g = Gamma("%s|%s" % (seed, bid))
     table = {}
     objs = {}
@@ -58,7 +73,7 @@ def run_behaviour(bid, beh, seed, observe=None):
                     ev.update(post=ev["pre"], status="classify:" + type(e).__name__)
                     events.append(ev)
                     continue
-                live[idx] = (m, str(m))
+                live[idx] = (m, str(m), expose(m, mabs["cls"]) if expose else None)
             else:
                 if step["ref"] not in live:
                     continue
@@ -73,7 +88,9 @@ def run_behaviour(bid, beh, seed, observe=None):
                 else:
                     status = "crash:BadReturn"
             ev.update(post=snap(o), status=status, warns=warns, ser_eq=(str(ro) == before),
-                      intact=all(str(mm) == s0 for mm, s0 in live.values()))
+                      intact=all(str(mm) == s0 for mm, s0, _ in live.values()))
+            if expose:
+                ev["expose_intact"] = all(expose(mm, type(mm).__name__) == x0 for mm, _, x0 in live.values())
         elif kind == "reload":
             text = str(ro)
             try:
@@ -83,6 +100,7 @@ def run_behaviour(bid, beh, seed, observe=None):
                 ev["cls"] = type(ro2).__name__
                 ev["completed_eq"] = bool(ro2.completed) == bool(ro.completed)
                 ev["ser_eq"] = str(ro2) == text
+                ev["acc_eq"] = accessor_view(ro2) == accessor_view(ro)
                 ev["post"] = project.rename(project.project_ro_xml(ro2.xml), table)
                 if isinstance(ro2, execute.RunningOrder) and idx % 2 == 0 and ev["post"] == ev["pre"]:
                     objs[o] = ro2          # carry on with the reloaded object every other time
@@ -94,6 +112,12 @@ def run_behaviour(bid, beh, seed, observe=None):
             ev["post"] = ev["pre"]
             ev["obs"] = observe(objs[o])
         events.append(ev)
+        if observe is not None and kind != "observe":
+            # observe after every step: accessor results must follow the state (nothing may be cached across merges)
+            oe = base_event(eid + ".o", o, "observe")
+            oe["pre"] = oe["post"] = snap(o)
+            oe["obs"] = observe(objs[o])
+            events.append(oe)
     for o in sorted(objs):
         ev = base_event("%s.end%d" % (bid, o), o, "idle")
         ev["pre"] = ev["post"] = snap(o)
